@@ -7,7 +7,7 @@ GET_SP_MODEL = 'r0 == SP(s0)'
 GET_SP_MUT_MODEL = 'r0 == SP(s0) && SP(s1) == r1 && WIPED(s1) == WIPED(s0)'
 
 PRELUDE = r'''
-use vstd::std_specs::iter::*;
+use vstd::std_specs::iter::IteratorSpec;
 /// the target is 64-bit (x86_64): needed for the i64 <-> usize casts of Stack::get_offset
 global size_of usize == 8;
 pub assume_specification<T: Clone + core::marker::Destruct> [<[T]>::clone_from_slice] (dst: &mut [T], src: &[T])
@@ -94,13 +94,15 @@ UNITS = [{
         'impl Stack::iter_to_sp': {
             'props': ['C03', 'C06'],
             'requires': ['self.wf()'],
-            'ensures': [(['C03'], 'r.remaining().len() == self.sp_spec() + 1'),
+            'ensures': [(['C03'], 'r.obeys_prophetic_iter_laws() && r.decrease() is Some'),
+                        (['C03'], 'r.remaining().len() == self.sp_spec() + 1'),
                         (['C03'], 'forall|i: int| 0 <= i <= self.sp_spec() ==> *(#[trigger] r.remaining()[i]) == self.cells()[i]')],
         },
         # ... and mark_continuation walks every slot of a saved stack through this one
         'impl Stack::iter': {
             'props': ['C03', 'C05', 'C06'],
-            'ensures': [(['C03', 'C05'], 'r.remaining().len() == self.cells().len()'),
+            'ensures': [(['C03'], 'r.obeys_prophetic_iter_laws() && r.decrease() is Some'),
+                        (['C03', 'C05'], 'r.remaining().len() == self.cells().len()'),
                         (['C03', 'C05'], 'forall|i: int| 0 <= i < self.cells().len() ==> *(#[trigger] r.remaining()[i]) == self.cells()[i]')],
         },
         'impl Stack::pop': {
